@@ -76,6 +76,11 @@ def set_hash_mode(mode):
     _HASH_MODE[0] = mode
 
 
+import re as _re  # noqa: E402
+
+_ADDR = _re.compile(r"0x[0-9a-fA-F]+")
+
+
 class LogCapture(logging.Handler):
     """Stores (logger, level, exc class, short message key) only; never draws from a PRNG."""
 
@@ -94,7 +99,7 @@ class LogCapture(logging.Handler):
             msg = record.getMessage()
         except Exception:
             msg = str(record.msg)
-        sink(record.name.rsplit(".", 1)[-1], record.levelname, exc, msg)
+        sink(record.name.rsplit(".", 1)[-1], record.levelname, exc, _ADDR.sub("0x", msg))
 
 
 LOGCAP = LogCapture()
